@@ -76,6 +76,7 @@ type Contract struct {
 	Mods     []Modifies
 	Lets     []LetDef
 	Trusted  bool
+	ThoroughOnly bool
 	Wrapping bool
 	NoBody   bool
 	File     string
@@ -376,6 +377,10 @@ func (cs *ContractSet) loadFile(path string, ext bool) error {
 		switch {
 		case body == "trusted":
 			cur.Trusted = true
+			lastText = nil
+		case body == "tier thorough":
+			// a long proof: verified by the thorough command only (the quick check reports it as deferred)
+			cur.ThoroughOnly = true
 			lastText = nil
 		case body == "wrapping":
 			cur.Wrapping = true
